@@ -178,8 +178,10 @@ def res_cli(run, case, rng, work):
     base_len = int(rng.integers(1, 20))
     equal_len = bool(rng.random() < .5)
     dup = bool(rng.random() < .1) and n > 1 and not use_filenames and not merge
+    # a statistic that is exactly 0.0 in every result of the call (e.g. min after origin alignment)
+    zero_keys = [STAT_KEYS[rng.integers(len(STAT_KEYS))]] if rng.random() < .2 else []
     for i in range(n):
-        if rng.random() < .25:
+        if rng.random() < .25 and not zero_keys:
             # a real evo_ape archive
             sub = os.path.join(work, "run%d" % i)
             os.makedirs(sub)
@@ -197,6 +199,8 @@ def res_cli(run, case, rng, work):
             lengths = {"error_array": base_len if equal_len else int(rng.integers(1, 20))}
             name = "sub dir/est_%d.txt" % (0 if dup else i)
             r = make_result(rng, STAT_KEYS, ["error_array"], lengths, int(rng.integers(2**31)), name)
+            for zk in zero_keys:
+                r.stats[zk] = 0.0
             p = os.path.join(work, "gen%d.zip" % i)
             file_interface.save_res_file(p, r)
             files.append(p)
